@@ -332,7 +332,9 @@ def run(payload):
         nontrivial += 1 if k > 1 else 0
         if len(fails) > 50:
             break
-    nreal, pre = audit_real(payload.get("real", []), fails, stats, doc_order)
+    rstats = {k: (None if v is None else 0) for k, v in stats.items()}
+    nreal, pre = audit_real(payload.get("real", []), fails, rstats, doc_order)
+    pre["stats"] = rstats
     evaluated += nreal
     return {"failures": fails[:30], "evaluated": evaluated, "cases": kinds, "distinct_nontrivial": nontrivial,
             "real_handoffs": pre.get("handoffs", 0), "real": pre, "stats": stats,
